@@ -29,13 +29,10 @@ EXTENDS Naturals, Sequences, FiniteSets, TLC
 CONSTANTS
     MaxLines,       \* lines in the known_hosts data
     LineKeys,       \* key ids that may appear on lines
-    Focus,          \* "lines" | "cert" | "callbacks" | "trustall"
-    FallbackKeepsRevoked,  \* TRUE: @revoked lines found for [host]:port stay
-                    \* in force when the lookup falls back to the plain name
-                    \* (the property; OpenSSH); FALSE: the fall-back result
-                    \* replaces them (known_hosts.py as it is)
-    SkipRevoked,    \* sensitivity: revoked set ignored
-    PrincipalsIgnored,     \* sensitivity: principals not compared
+    Focus,          \* "lines" | "cert" | "callbacks" | "trustall" | "sets"
+    SetSize,        \* Focus = "sets": exactly this many distinct lines
+    Mu,             \* "none": the decision as designed; otherwise the name of
+                    \* a deliberately wrong variant (sensitivity runs)
     Emit
 
 Now == 2
@@ -48,7 +45,6 @@ Windows == {"in", "startsNow", "endsNext", "notYet", "endsNow", "expired"}
 Va(w) == CASE w = "startsNow" -> Now [] w = "notYet" -> Now + 1 [] OTHER -> 0
 Vb(w) == CASE w = "endsNext" -> Now + 1 [] w = "endsNow" -> Now
            [] w = "expired" -> Now - 1 [] OTHER -> 9
-WindowHolds(w) == Va(w) <= Now /\ Now < Vb(w)
 
 PresKey == [kind : {"key"}, key : {"K1"}, ca : {"none"}, type : {"host"},
             win : {"in"}, princ : {"covers"}, certSig : {TRUE},
@@ -76,6 +72,20 @@ CertFocusLines ==
       <<L("ca", "name", "CA1"), L("revoked", "name", "K1")>> }
 AllLineSeqs == UNION {[1..n -> Line] : n \in 0..MaxLines}
 
+(* Focus "sets": known_hosts contents as sets of SetSize distinct matching  *)
+(* lines (the order in the file is chosen at materialisation); lines that   *)
+(* match nothing are left to the sequence tables.  Written as sequences in  *)
+(* one canonical order.                                                     *)
+MkIdx(m) == CASE m = "plain" -> 0 [] m = "ca" -> 1 [] OTHER -> 2
+MtIdx(m) == CASE m = "name" -> 0 [] m = "port" -> 1 [] m = "both" -> 2
+              [] OTHER -> 3
+KeyIdx(k) == CASE k = "K1" -> 0 [] k = "K2" -> 1 [] k = "CA1" -> 2
+               [] OTHER -> 3
+Code(l) == MkIdx(l.marker) * 16 + MtIdx(l.match) * 4 + KeyIdx(l.key)
+SetLine == {l \in Line : l.match # "none"}
+SetSeqs == {q \in [1..SetSize -> SetLine] :
+               \A i \in 1..(SetSize - 1) : Code(q[i]) < Code(q[i + 1])}
+
 VARIABLES
     lines,      \* known_hosts content
     port,       \* "def" | "nondef"
@@ -91,74 +101,134 @@ vars == <<lines, port, mode, cbKey, cbCA, pres, phase, credsSent>>
 Init ==
     /\ phase = "connect" /\ credsSent = FALSE
     /\ \/ /\ Focus = "lines"
-              /\ lines \in AllLineSeqs /\ port \in {"def", "nondef"}
-              /\ mode = "file" /\ cbKey = FALSE /\ cbCA = FALSE
-              /\ pres \in PresKey \cup PresCertGood
+          /\ lines \in AllLineSeqs /\ port \in {"def", "nondef"}
+          /\ mode = "file" /\ cbKey = FALSE /\ cbCA = FALSE
+          /\ pres \in PresKey \cup PresCertGood
        \/ /\ Focus = "cert"
-              /\ lines \in CertFocusLines /\ port \in {"def", "nondef"}
-              /\ mode = "file" /\ cbKey = FALSE /\ cbCA = FALSE
-              /\ pres \in PresCertAll
+          /\ lines \in CertFocusLines /\ port \in {"def", "nondef"}
+          /\ mode = "file" /\ cbKey = FALSE /\ cbCA = FALSE
+          /\ pres \in PresCertAll
        \/ /\ Focus = "callbacks"
-              /\ lines \in AllLineSeqs /\ port \in {"def", "nondef"}
-              /\ mode = "file" /\ cbKey \in BOOLEAN /\ cbCA \in BOOLEAN
-              /\ pres \in PresKey \cup PresCertGood
+          /\ lines \in AllLineSeqs /\ port \in {"def", "nondef"}
+          /\ mode = "file" /\ cbKey \in BOOLEAN /\ cbCA \in BOOLEAN
+          /\ pres \in PresKey \cup PresCertGood
        \/ /\ Focus = "trustall"
-              /\ lines \in {<<>>, <<L("revoked", "both", "K1")>>,
-                            <<L("revoked", "both", "CA1")>>}
-              /\ port \in {"def", "nondef"}
-              /\ mode = "none" /\ cbKey = FALSE /\ cbCA = FALSE
-              /\ pres \in PresKey \cup PresCertAll
+          /\ lines \in {<<>>, <<L("revoked", "both", "K1")>>,
+                        <<L("revoked", "both", "CA1")>>}
+          /\ port \in {"def", "nondef"}
+          /\ mode = "none" /\ cbKey = FALSE /\ cbCA = FALSE
+          /\ pres \in PresKey \cup PresCertAll
+       \/ /\ Focus = "sets"
+          /\ lines \in SetSeqs /\ port = "nondef"
+          /\ mode = "file" /\ cbKey = FALSE /\ cbCA = FALSE
+          /\ pres \in {p \in PresKey \cup PresCertGood : p.holds}
 
 -----------------------------------------------------------------------------
-(* known_hosts lookup *)
+(* known_hosts lookup.  Every operator takes the name mu of a variant:     *)
+(* "none" is the design; the others are single, plausible deviations.  They *)
+(* serve as sensitivity runs (Mu) and, printed with each case as the set    *)
+(* of variants that would decide the case differently, they tell the        *)
+(* replay which cases discriminate.                                         *)
+Variants == {"dropPortRevoked", "orRevoked", "revokedPrimaryOnly",
+             "revokedPlainOnly", "skipRevokedKey", "skipRevokedCA",
+             "fbIgnoresCA", "fbIgnoresKeys", "alwaysFallback", "unionLookup",
+             "markerIgnored", "caAsHostKey", "certKeyAsPlain", "anyCA",
+             "typeIgnored", "vbInclusive", "vaLoose", "windowIgnored",
+             "princIgnored", "emptyPrincRejected", "certSigIgnored",
+             "holdsIgnored", "cbKeyForRevoked", "cbCAForRevoked",
+             "trustAllSkipsSig", "noFallback"}
+
 LineSet == {lines[i] : i \in 1..Len(lines)}
 InPrimary(l) == IF port = "nondef" THEN l.match \in {"port", "both"}
                 ELSE l.match \in {"name", "both"}
 InPlain(l) == l.match \in {"name", "both"}
-PrimaryHasTrust == \E l \in LineSet : InPrimary(l) /\ l.marker \in {"plain", "ca"}
-Fallback == port = "nondef" /\ ~PrimaryHasTrust
-Eff(l) == IF Fallback THEN InPlain(l) ELSE InPrimary(l)
-
 KeysOf(mk, sel(_)) == {l.key : l \in {x \in LineSet : x.marker = mk /\ sel(x)}}
-TrustedKeys == KeysOf("plain", Eff)
-TrustedCAs  == KeysOf("ca", Eff)
-RevokedFor(keep, skip) ==
-    IF skip THEN {}
-    ELSE KeysOf("revoked", Eff) \cup
-         (IF keep THEN KeysOf("revoked", InPrimary) ELSE {})
+
+PrimaryHasTrust(mu) ==
+    \E l \in LineSet : /\ InPrimary(l)
+                       /\ l.marker \in (CASE mu = "fbIgnoresCA" -> {"plain"}
+                                          [] mu = "fbIgnoresKeys" -> {"ca"}
+                                          [] OTHER -> {"plain", "ca"})
+Fallback(mu) ==
+    /\ port = "nondef" /\ mu # "noFallback"
+    /\ (mu = "alwaysFallback" \/ ~PrimaryHasTrust(mu))
+Eff(mu, l) == IF mu = "unionLookup" /\ port = "nondef"
+              THEN InPrimary(l) \/ InPlain(l)
+              ELSE IF Fallback(mu) THEN InPlain(l) ELSE InPrimary(l)
+
+TrustedKeys(mu) ==
+    LET e(l) == Eff(mu, l) IN
+    KeysOf("plain", e) \cup
+    (IF mu \in {"markerIgnored", "caAsHostKey"} THEN KeysOf("ca", e) ELSE {})
+TrustedCAs(mu) ==
+    LET e(l) == Eff(mu, l) IN
+    KeysOf("ca", e) \cup (IF mu = "markerIgnored" THEN KeysOf("plain", e)
+                          ELSE {})
+(* @revoked lines: those of the lookup that produced the trusted sets, and  *)
+(* those found for [host]:port even when that lookup fell back              *)
+Revoked(mu) ==
+    LET e(l) == Eff(mu, l)
+        eff  == KeysOf("revoked", e)
+        prim == KeysOf("revoked", InPrimary)
+        pln  == KeysOf("revoked", InPlain)
+    IN  CASE mu = "dropPortRevoked" -> eff
+          [] mu = "orRevoked" -> IF Fallback(mu) /\ pln # {} THEN pln
+                                 ELSE eff \cup prim
+          [] mu = "revokedPrimaryOnly" -> prim
+          [] mu = "revokedPlainOnly" -> pln
+          [] OTHER -> eff \cup prim
+
+WindowOK(mu, w) ==
+    CASE mu = "windowIgnored" -> TRUE
+      [] mu = "vbInclusive" -> Va(w) <= Now /\ Now <= Vb(w)
+      [] mu = "vaLoose" -> Va(w) <= Now + 1 /\ Now < Vb(w)
+      [] OTHER -> Va(w) <= Now /\ Now < Vb(w)
 
 (* the client's decision, in the order the code takes it *)
-KeyAccepted(revoked) ==
+KeyAccepted(mu) ==
     \/ mode = "none"
-    \/ /\ pres.key \notin revoked
-       /\ (pres.key \in TrustedKeys \/ cbKey)
-CertAccepted(revoked) ==
-    /\ pres.certSig                     \* else the blob does not decode
+    \/ /\ (pres.key \notin Revoked(mu) \/ mu = "skipRevokedKey"
+           \/ (mu = "cbKeyForRevoked" /\ cbKey))
+       /\ (pres.key \in TrustedKeys(mu) \/ cbKey)
+CertAccepted(mu) ==
+    /\ (pres.certSig \/ mu = "certSigIgnored") \* else the blob does not decode
     /\ \/ mode = "none"
-       \/ /\ pres.ca \notin revoked
-          /\ (pres.ca \in TrustedCAs \/ cbCA)
-          /\ pres.type = "host"
-          /\ WindowHolds(pres.win)
-          /\ (PrincipalsIgnored \/ pres.princ \in {"covers", "empty"})
-DecisionWith(keep) ==
-    /\ LET revoked == RevokedFor(keep, SkipRevoked) IN
-       IF pres.kind = "key" THEN KeyAccepted(revoked)
-       ELSE CertAccepted(revoked)
-    /\ pres.holds                       \* signature over H verifies
-Decision == DecisionWith(FallbackKeepsRevoked)
+       \/ mu = "certKeyAsPlain" /\ pres.key \in TrustedKeys(mu)
+                                /\ pres.key \notin Revoked(mu)
+       \/ /\ (pres.ca \notin Revoked(mu) \/ mu = "skipRevokedCA"
+              \/ (mu = "cbCAForRevoked" /\ cbCA))
+          /\ (pres.ca \in TrustedCAs(mu) \/ cbCA \/ mu = "anyCA")
+          /\ (pres.type = "host" \/ mu = "typeIgnored")
+          /\ WindowOK(mu, pres.win)
+          /\ \/ mu = "princIgnored"
+             \/ pres.princ = "covers"
+             \/ pres.princ = "empty" /\ mu # "emptyPrincRejected"
+DecisionM(mu) ==
+    /\ IF pres.kind = "key" THEN KeyAccepted(mu) ELSE CertAccepted(mu)
+    \* signature over the exchange hash verifies under the presented key
+    /\ (pres.holds \/ mu = "holdsIgnored"
+        \/ (mu = "trustAllSkipsSig" /\ mode = "none"))
+Decision == DecisionM(Mu)
 
 (* the property, written out *)
 TrustRule ==
-    LET revoked == RevokedFor(TRUE, FALSE) IN
+    LET looked(l) == Eff("none", l)
+        trusted == KeysOf("plain", looked)
+        cas     == KeysOf("ca", looked)
+        revoked == KeysOf("revoked", looked) \cup KeysOf("revoked", InPrimary)
+    IN
     /\ pres.holds
     /\ \/ mode = "none" /\ (pres.kind = "cert" => pres.certSig)
        \/ /\ mode = "file" /\ pres.kind = "key"
-          /\ (pres.key \in TrustedKeys \/ cbKey) /\ pres.key \notin revoked
+          /\ (pres.key \in trusted \/ cbKey) /\ pres.key \notin revoked
        \/ /\ mode = "file" /\ pres.kind = "cert" /\ pres.certSig
-          /\ (pres.ca \in TrustedCAs \/ cbCA) /\ pres.ca \notin revoked
+          /\ (pres.ca \in cas \/ cbCA) /\ pres.ca \notin revoked
           /\ pres.type = "host"
           /\ Va(pres.win) <= Now /\ Now < Vb(pres.win)
           /\ pres.princ \in {"covers", "empty"}
+
+(* variants that would decide this case differently from the property *)
+Discriminates == {mu \in Variants : DecisionM(mu) # TrustRule}
 
 -----------------------------------------------------------------------------
 Connect ==
@@ -182,8 +252,8 @@ NoCredsBeforeTrust  == [][credsSent' => phase = "accepted"]_vars
 Emitted ==
     (Emit /\ phase \in {"accepted", "rejected"}) =>
         PrintT(<<"case", lines, port, mode, cbKey, cbCA, pres, TrustRule,
-                 DecisionWith(FALSE)>>)
+                 Discriminates>>)
 
 NeverAccepted == phase # "accepted"
-NeverFallbackAccept == ~(phase = "accepted" /\ Fallback)
+NeverFallbackAccept == ~(phase = "accepted" /\ Fallback("none"))
 =============================================================================
